@@ -65,6 +65,14 @@ template<bool contextual, class P> static void run_variant(const char* name, con
     }
 }
 
+struct op_lexer {
+    template<typename Iterator, typename ErrorStream>
+    constexpr recognized_term match(match_options, source_point, Iterator start, Iterator end, ErrorStream&) {
+        if (start == end) return recognized_term{};
+        char c = *start; return c == '2' ? recognized_term(0, 1) : c == '-' ? recognized_term(1, 1) : c == '*' ? recognized_term(2, 1) : recognized_term{};
+    }
+};
+
 int main(int argc, char** argv) {
     int n = argc > 1 ? std::atoi(argv[1]) : 6;
     std::vector<S> inputs{""}; const char al[] = {'2', '-', '*', ' '};
@@ -136,6 +144,49 @@ int main(int argc, char** argv) {
             std::ostringstream es; auto got = p.parse(string_buffer(S(in)), es);
             if (got.has_value() != wok || (wok && *got != want)) { ++g_fail; if (g_first.empty()) g_first = "precedence carried by typed / string / regex terms, input '" + in + "': grouped as " + (got ? *got : S("<rejected>")) + ", the declared precedences give " + (wok ? want : S("<rejected>")); }
             if (wok) ++g_accept;
+        }
+    }
+    {   // nameless regex terms carrying precedence, and the same operator grammar with custom terms (use_lexer) carrying precedence and associativity -
+        // including left associativity at precedence 0: "everything else is as for the generated lexer"
+        static constexpr char minus_pat[] = "-"; static constexpr char mul_pat[] = "\\*";
+        static constexpr regex_term<minus_pat> rx_minus(1, associativity::ltor); static constexpr regex_term<mul_pat> rx_mul(2, associativity::ltor);
+        static const parser pn(expr, terms('2', rx_minus, rx_mul), nterms(expr), rules(expr('2') >= leaf,
+            expr(expr, rx_minus, expr) >= [](S&& a, auto&&, S&& b) { return "(" + a + "-" + b + ")"; }, expr(expr, rx_mul, expr) >= [](S&& a, auto&&, S&& b) { return "(" + a + "*" + b + ")"; }));
+        static const custom_term c_two("2", [](auto) { return S("2"); });
+        // variant A: '-' (0, ltor) '*' (0, rtol): only associativity, at precedence 0 ; variant B: '-' (1, ltor) '*' (2, rtol)
+        static const custom_term a_minus("-", [](auto) { return S("-"); }, 0, associativity::ltor); static const custom_term a_mul("*", [](auto) { return S("*"); }, 0, associativity::rtol);
+        static const custom_term b_minus("-", [](auto) { return S("-"); }, 1, associativity::ltor); static const custom_term b_mul("*", [](auto) { return S("*"); }, 2, associativity::rtol);
+        auto bin = [](S&& a, S&& op, S&& b) { return "(" + a + op + b + ")"; };
+        static const parser pa(expr, terms(c_two, a_minus, a_mul), nterms(expr), rules(expr(c_two), expr(expr, a_minus, expr) >= bin, expr(expr, a_mul, expr) >= bin), use_lexer<op_lexer>{});
+        static const parser pb(expr, terms(c_two, b_minus, b_mul), nterms(expr), rules(expr(c_two), expr(expr, b_minus, expr) >= bin, expr(expr, b_mul, expr) >= bin), use_lexer<op_lexer>{});
+        // their twins under the generated lexer
+        static constexpr char_term ga_minus('-', 0, associativity::ltor); static constexpr char_term ga_mul('*', 0, associativity::rtol);
+        static constexpr char_term gb_minus('-', 1, associativity::ltor); static constexpr char_term gb_mul('*', 2, associativity::rtol);
+        auto gbin = [](S&& a, char op, S&& b) { return "(" + a + S(1, op) + b + ")"; };
+        static const parser ga(expr, terms('2', ga_minus, ga_mul), nterms(expr), rules(expr('2') >= leaf, expr(expr, ga_minus, expr) >= gbin, expr(expr, ga_mul, expr) >= gbin));
+        static const parser gb(expr, terms('2', gb_minus, gb_mul), nterms(expr), rules(expr('2') >= leaf, expr(expr, gb_minus, expr) >= gbin, expr(expr, gb_mul, expr) >= gbin));
+        for (const S& in : inputs) {
+            // reference by precedence climbing: levels / right-associativity per operator
+            auto pratt = [&](int pm, bool rm, int px, bool rx, S& out) -> bool {
+                std::vector<char> t; for (char c : in) if (c != ' ') t.push_back(c);
+                size_t pos = 0; bool ok = true;
+                std::function<S(int, bool)> parse = [&](int min, bool strict) -> S {
+                    if (!(pos < t.size() && t[pos] == '2')) { ok = false; return ""; }
+                    ++pos; S lhs = "2";
+                    while (ok && pos < t.size()) { char c = t[pos]; if (c != '-' && c != '*') { ok = false; break; } int pr = c == '-' ? pm : px; bool r = c == '-' ? rm : rx;
+                        if (strict ? pr <= min : pr < min) break; ++pos; S rhs = parse(pr, !r); lhs = "(" + lhs + S(1, c) + rhs + ")"; }
+                    return lhs; };
+                out = parse(-1, false); return ok && pos == t.size(); };
+            struct V { const char* name; int pm; bool rm; int px; bool rx; std::optional<S> got; };
+            std::ostringstream e1, e2, e3, e4, e5;
+            V vs[] = {{"nameless regex terms (1, ltor) / (2, ltor)", 1, false, 2, false, pn.parse(string_buffer(S(in)), e1)},
+                      {"custom terms (0, ltor) / (0, rtol)", 0, false, 0, true, pa.parse(string_buffer(S(in)), e2)}, {"char terms (0, ltor) / (0, rtol)", 0, false, 0, true, ga.parse(string_buffer(S(in)), e3)},
+                      {"custom terms (1, ltor) / (2, rtol)", 1, false, 2, true, pb.parse(string_buffer(S(in)), e4)}, {"char terms (1, ltor) / (2, rtol)", 1, false, 2, true, gb.parse(string_buffer(S(in)), e5)}};
+            for (V& v : vs) {
+                ++g_cases; ++g_checks; S want; bool wok = pratt(v.pm, v.rm, v.px, v.rx, want);
+                if (v.got.has_value() != wok || (wok && *v.got != want)) { ++g_fail; if (g_first.empty()) g_first = S(v.name) + ", input '" + in + "': grouped as " + (v.got ? *v.got : S("<rejected>")) + ", the declared precedences give " + (wok ? want : S("<rejected>")); }
+                if (wok) ++g_accept;
+            }
         }
     }
     S esc; for (char c : g_first) { if (c == '"' || c == '\\') esc += '\\'; esc += c; }
